@@ -24,7 +24,8 @@ P = {
          'Coq proof (scanner <-> grammar) + differential correspondence', '6/C02'),
  'C03': ('proof', 'Theorems: the decoder model accepts exactly RFC 3629 well-formed UTF-8 (256^2 / 16x256^2 sweeps by vm_compute lifted to all bytes, arithmetic for 4-byte); '
          'the 6531 scanner accepts iff the byte string is well-formed UTF-8 whose scalar sequence satisfies the 5321 grammar with non-ASCII scalars as atext/qtext; '
-         'agreement with mode 5321 on ASCII. Correspondence: exhaustive 1-2 byte, boundary 3-4 byte sequences in atom/quoted/escaped position, class strings with multi-byte symbols.',
+         'agreement with mode 5321 on ASCII; the value delivered for a character is its RFC 3629 scalar value. Correspondence: exhaustive 1-2 byte, boundary 3-4 byte sequences in atom/quoted/escaped position, class strings with multi-byte symbols, '
+         'token sequences with complete and broken foldings, the decoder alone (scalar values, end/error, offsets).',
          'Coq proof (decoder = RFC 3629 table; scanner <-> grammar) + differential correspondence', '6/C03'),
  'C04': ('proof', 'Theorem C04_ascii_domain: is_ascii_domain model accepts iff HostnameSpec (labels 1-63 LDH, no edge hyphen, <= 253 without the single optional root dot, not all digits/dots), '
          'for both settings of LABELS_ALLOW_UNDERSCORE; C04_utf8_domain: what mode 6531 accepts has an A-label form meeting the same spec. Correspondence: all strings <= 6 (8) over 8 classes, '
@@ -36,7 +37,7 @@ P.update({
  'C07': ('proof', 'Theorems over the table dumped from the built library on every run: every length field is strlen+1, names lower-case A-labels, classes 1..9, no duplicate (vm_compute over all rows); '
          'C07_lookup_whole_label: lookup = the row ci-EQUAL to the whole label, else invalid TLD (no prefix/suffix can match); C07_email_classification: reserved -> special, single label -> not FQDN, '
          'else class of the text after the last dot; U-label and A-label go through the same A-label. Correspondence: every row in 4 case patterns, every proper prefix, extensions, substitutions, neighbours, '
-         'e-mail level in 4 modes, all IDN rows of raw.csv in both spellings.', 'Coq proof over the regenerated table + differential correspondence', '6/C07'),
+         'e-mail level in 4 modes, all IDN rows of raw.csv in both spellings; time-boxed exhaustive sweep of is_tld over all short labels (every length <= 4 in the quick tier).', 'Coq proof over the regenerated table + differential correspondence', '6/C07'),
  'C08': ('proof', 'Theorems for an arbitrary integer mask: class k accepted iff Z.testbit mask (k+1); own bit only; negative codes and literals outside the policy; tld_check off makes table and mask irrelevant; '
          'eav_init defaults equal the values dumped from the built library. Correspondence is exhaustive over the finite policy space (2^11 masks x codes -35..9 x 4 modes x tld on/off via a stub callback) '
          'plus real addresses of every class through the facade.', 'Coq proof + exhaustive differential correspondence', '6/C08'),
